@@ -119,7 +119,7 @@ func NewGen(seed uint64, p *Profile) *Gen {
 
 func (g *Gen) id() int { g.nextID++; return g.nextID - 1 }
 
-func keyVals(r *Rng, style, typ string, n int, hash bool) []AV {
+func keyVals(r *Rng, style, typ string, n int, hash bool, c, e string) []AV {
 	var pool []AV
 	switch {
 	case typ == "N":
@@ -129,9 +129,26 @@ func keyVals(r *Rng, style, typ string, n int, hash bool) []AV {
 	case typ == "B":
 		pool = []AV{Bin(1, 1), Bin(1, 2), Bin(2, 1), Bin(7, 7), Bin(9, 1)} // equal width, single digits: text order = byte order
 	case style == "adversarial":
-		for _, s := range []string{"a.b", "a", "b.c", "c", "a.", ".", "..", "b", ".c", "a|b", "a:b", "a#b", "a,b", "a/b", "a\\", "a\x00b", "a.b.c"} {
-			pool = append(pool, S(s))
+		// a family of values that collide under any joining of (hash, range)
+		// that is not injective: separator c inside and at the edges of the
+		// values, escape character e before it. hashes {a, a+c, a+e, a+c+b},
+		// ranges {x, c+x, b+c+x, e+c+x}: ("a"+c+"b","x") = ("a","b"+c+"x") under a
+		// naive join, ("a"+e, c+"x") = ("a"+c, "x") under an escape that does not
+		// escape itself.
+		var fam []string
+		if hash {
+			fam = []string{"a", "a" + c, "a" + e, "a" + c + "b", "a" + e + c}
+		} else {
+			fam = []string{"x", c + "x", "b" + c + "x", e + c + "x", c}
 		}
+		seen := map[string]bool{}
+		for _, s := range fam {
+			if !seen[s] {
+				seen[s] = true
+				pool = append(pool, S(s))
+			}
+		}
+		n = len(pool)
 	case hash:
 		for _, s := range []string{"p", "q", "pq", "pa", "r"} {
 			pool = append(pool, S(s))
@@ -189,8 +206,13 @@ func (g *Gen) makeWorld() {
 			}
 		}
 		u := TableUni{Name: name, IdxVals: map[string][]AV{}}
-		u.HashVals = keyVals(r, style, hashT, r.Range(2, 4), true)
-		u.RangeVals = keyVals(r, style, rangeT, r.Range(2, 4), false)
+		sepC, sepE := ".", "\\"
+		if r.Chance(0.4) {
+			seps := []string{".", "\\", "|", ":", "#", ",", "/", "\x00"}
+			sepC, sepE = pick(r, seps), pick(r, seps)
+		}
+		u.HashVals = keyVals(r, style, hashT, r.Range(2, 4), true, sepC, sepE)
+		u.RangeVals = keyVals(r, style, rangeT, r.Range(2, 4), false, sepC, sepE)
 		g2T := pick(r, []string{"S", "S", "N"})
 		if (style != "numeric" && p.Prop != "C02") || (KnownTriggers["number-sort-key-order"] && r.Chance(0.8)) {
 			g2T = "S"
@@ -339,7 +361,11 @@ func (g *Gen) value(typ string) AV {
 // tableOf picks a table name; existing in the model with probability high.
 func (g *Gen) tableOf(mc *MClient) (string, *MTable) {
 	names := sortedKeys(mc.Tables)
-	if len(names) == 0 || g.R.Chance(0.05) {
+	pMissing := 0.05
+	if mc.Fail != "none" {
+		pMissing = 0.2 // a failing client must fail the same way whatever the table
+	}
+	if len(names) == 0 || g.R.Chance(pMissing) {
 		u := pick(g.R, g.W.Tables)
 		return u.Name, mc.Tables[u.Name]
 	}
@@ -835,8 +861,8 @@ func (g *Gen) try(m *Model, eng *Engine) *Cmd {
 		}
 	case "batchg":
 		cmd.Op, cmd.Actor, cmd.T = "BatchGet", "reader", ""
-		if g.avoid["v1-batchget"] && g.W.SDKs[c] == "v1" {
-			return nil
+		if g.avoid["v1-batchget"] && (g.W.SDKs[c] == "v1" || g.P.Prop == "C17") {
+			return nil // (in C17's twin worlds every command also runs on the v1 client)
 		}
 		n := r.Range(1, 5)
 		seen := map[string]bool{}
